@@ -224,7 +224,7 @@ func init() {
 	propChecks["C18"] = &PropCheck{
 		ID: "C18", Title: "redact accepts exactly the well-defined jobs; rejections have no side effects",
 		Jobs: func(e *Engine, tier string) []*Job {
-			j := &Job{Name: "redact", Harness: "H_c18", Lines: map[string]*Template{}, Params: map[string]string{
+			j := &Job{Name: "redact", Harness: "H_c18", Lines: map[string]*Template{}, NoNative: true, Params: map[string]string{
 				"subcommand": "redact", "symenv": "ATLAS_PUBLIC_KEY,ATLAS_PRIVATE_KEY", "fs.kinds": "absent,file,dir", "createMayFail": "yes"}}
 			j.cutSet = map[string]bool{}
 			for _, c := range cliCut {
@@ -405,6 +405,30 @@ func init() {
 		},
 		Assumptions: []string{"non-empty literals (quick)", "injectivity follows from Dec(Enc(m))=m and the injectivity of base64 (contracts)"},
 		Trusted:     cryptoTrusted,
+	}
+	propChecks["C11"] = &PropCheck{
+		ID: "C11", Title: "Key-file lifecycle: create once, never overwrite, refuse unusable keys",
+		Jobs: func(e *Engine, tier string) []*Job {
+			j := &Job{Name: "redact-x3", Harness: "H_c11", Lines: map[string]*Template{}, NoNative: true, Params: map[string]string{
+				"subcommand": "redact", "fs.kinds": "absent,file,dir,staterror", "fixflags": "encrypt-file-mode"}}
+			j.cutSet = map[string]bool{}
+			for _, c := range cliCut {
+				j.cutSet[c] = true
+			}
+			j.snapshot = []string{"encryptionKey", "shouldEncrypt"}
+			rw := &Job{Name: "generate-store-read", Harness: "H_c11_rw", Lines: map[string]*Template{}, Params: map[string]string{}}
+			return []*Job{j, rw}
+		},
+		Post:      keyPost,
+		Functions: []string{"main$1", "FileExists", "GenerateKey", "WriteKeyToFile", "ReadKeyFromFile", "SetEncryptionKey", "SetShouldEncrypt"},
+		Bounds: map[string]any{
+			"runs":        "up to 3 consecutive runs of the real redact command over the same symbolic file system (a failing run ends the sequence)",
+			"key_path":    "initial state chosen by the solver: absent / regular file with arbitrary content / directory / status unreadable; content classes (valid, valid+newline, empty, short, long, non-base64) are not enumerated: validity is the predicate 'base64-decodes to 64 bytes' over arbitrary content",
+			"flags":       "file input + --outputFile + --encrypt with arbitrary key path (other flags at their defaults)",
+			"outside":     "distinctness of generated keys (quality of crypto/rand), umask / ACL semantics, concurrent runs",
+		},
+		Assumptions: []string{"os.WriteFile either stores the bytes or fails; os.ReadFile returns the stored bytes; crypto/rand.Read fills the slice with arbitrary bytes"},
+		Trusted:     append(append([]string{}, commonTrusted...), "file-system stub (engine/intr_cli.go): one symbolic entry per path, every call recorded as an event", "encoding/base64 contract b64 / unb64 (see C09: real code checked for lengths 0..6)"),
 	}
 	propChecks["C01"] = &PropCheck{
 		ID:    "C01",
